@@ -81,18 +81,28 @@ Neigh(cs, sp, cl) ==
   [tl |-> ChIn(cs, sp, cl[1]-1, cl[2]-1), t |-> ChIn(cs, sp, cl[1], cl[2]-1), tr |-> ChIn(cs, sp, cl[1]+1, cl[2]-1),
    l  |-> ChIn(cs, sp, cl[1]-1, cl[2]),                                        r  |-> ChIn(cs, sp, cl[1]+1, cl[2]),
    bl |-> ChIn(cs, sp, cl[1]-1, cl[2]+1), b |-> ChIn(cs, sp, cl[1], cl[2]+1), br |-> ChIn(cs, sp, cl[1]+1, cl[2]+1)]
-Mins(fr) == <<Min2(fr.s[1], fr.e[1]), Min2(fr.s[2], fr.e[2])>>
-Maxs(fr) == <<Max2(fr.s[1], fr.e[1]), Max2(fr.s[2], fr.e[2])>>
-Rank(fr) == IF fr.k = "L" THEN 10 ELSE IF fr.k = "C" THEN 30 ELSE 40
+PXs(fr) == { fr.pts[i][1] : i \in 1..Len(fr.pts) }
+PYs(fr) == { fr.pts[i][2] : i \in 1..Len(fr.pts) }
+Mins(fr) == IF fr.k = "P" THEN <<SetMin(PXs(fr)), SetMin(PYs(fr))>>
+            ELSE IF fr.k = "C" THEN <<fr.c[1] - fr.r, fr.c[2] - fr.r>>
+            ELSE <<Min2(fr.s[1], fr.e[1]), Min2(fr.s[2], fr.e[2])>>
+Maxs(fr) == IF fr.k = "P" THEN <<SetMax(PXs(fr)), SetMax(PYs(fr))>>
+            ELSE IF fr.k = "C" THEN <<fr.c[1] + fr.r, fr.c[2] + fr.r>>
+            ELSE <<Max2(fr.s[1], fr.e[1]), Max2(fr.s[2], fr.e[2])>>
+Rank(fr) == IF fr.k = "L" THEN 10 ELSE IF fr.k = "C" THEN 30 ELSE IF fr.k = "A" THEN 40 ELSE 50
 BLt(x, z) == x = FALSE /\ z = TRUE
 FragLt(x, z) ==
   IF x.k = "L" /\ z.k = "L"
     THEN PLt(x.s, z.s) \/ (x.s = z.s /\ (PLt(x.e, z.e) \/ (x.e = z.e /\ BLt(x.b, z.b))))
   ELSE IF x.k = "A" /\ z.k = "A"
     THEN PLt(x.s, z.s) \/ (x.s = z.s /\ (PLt(x.e, z.e) \/ (x.e = z.e /\ (x.r < z.r \/ (x.r = z.r /\ (BLt(x.mj, z.mj) \/ (x.mj = z.mj /\ BLt(x.sw, z.sw))))))))
+  ELSE IF x.k = "P" /\ z.k = "P"
+    THEN x.pts # z.pts /\ (PLt(x.pts[1], z.pts[1]) \/ (x.pts[1] = z.pts[1] /\ (PLt(x.pts[Len(x.pts)], z.pts[Len(z.pts)])
+                              \/ (x.pts[Len(x.pts)] = z.pts[Len(z.pts)] /\ Len(x.pts) < Len(z.pts)))))
   ELSE PLt(Mins(x), Mins(z)) \/ (Mins(x) = Mins(z) /\ (PLt(Maxs(x), Maxs(z)) \/ (Maxs(x) = Maxs(z) /\ Rank(x) < Rank(z))))
 Shift(fr, cl) == LET mv(p) == <<p[1] + CW * cl[1], p[2] + CH * cl[2]>> IN
-                 [fr EXCEPT !.s = mv(fr.s), !.e = mv(fr.e)]
+                 IF fr.k = "P" THEN [fr EXCEPT !.pts = [i \in 1..Len(fr.pts) |-> mv(fr.pts[i])]]
+                 ELSE [fr EXCEPT !.s = mv(fr.s), !.e = mv(fr.e)]
 CellFrags(cs, sp, cl) ==
   LET ch == ChAt(cs, cl[1], cl[2])
       rs == Rules(ch, Neigh(cs, sp, cl))
@@ -197,6 +207,7 @@ Strip(fr) ==
   IF fr.k = "L" THEN <<"line", fr.s[1], fr.s[2], fr.e[1], fr.e[2], B01(fr.b)>>
   ELSE IF fr.k = "A" THEN <<"path", fr.s[1], fr.s[2], fr.r, B01(fr.sw), fr.e[1], fr.e[2], B01(fr.mj)>>
   ELSE IF fr.k = "C" THEN <<"circle", fr.c[1], fr.c[2], fr.r>>
+  ELSE IF fr.k = "P" THEN <<"polygon">> \o FoldLeft(LAMBDA lst, q : lst \o <<q[1], q[2]>>, <<>>, fr.pts)
   ELSE IF fr.k = "R" THEN <<"rect", fr.s[1], fr.s[2], fr.e[1] - fr.s[1], fr.e[2] - fr.s[2], fr.r, B01(fr.b)>>
   ELSE <<"text", fr.cell[1] * CW + 2, fr.cell[2] * CH + 12, fr.s>>
 Flatten(results) ==
